@@ -180,6 +180,8 @@ impl OutputFormat for XBin {
         let height = data[o] as i32 + ((data[o + 1] as i32) << 8);
         result.set_height(height);
         result.layers[0].set_size((width, height));
+        // start from an empty layer: the rows pre-allocated by Buffer::new would survive crop_loaded_file
+        result.layers[0].lines.clear();
         o += 2;
         let mut font_size = data[o];
         if font_size == 0 {
